@@ -19,6 +19,7 @@ def codec_cfg(tier: str) -> S.SchemaCfg:
         max_structs=4 if tier == "quick" else 6,
         max_fields=6,
         enum_max_bits=63,
+        dup_ids=True,
     )
 
 
